@@ -68,7 +68,7 @@ Next ==
   \/ On("handle") /\ \E n \in NameSet : S!Handle(n)
   \/ On("read") /\ \E n \in NameSet : S!Read(n)
   \/ On("lookup") /\ \E k \in CallerSet, n \in NameSet, dl \in LookupDeadlines : S!Lookup(k, n, Dl(LookupDeadlines, dl))
-  \/ \E k \in CallerSet : S!LookupEnter(k) \/ S!LookupGiveUp(k)
+  \/ \E k \in CallerSet : S!LookupEnter(k) \/ S!LookupGiveUp(k) \/ S!CtxExpire(k)
   \/ On("cancel") /\ \E k \in CallerSet : S!Cancel(k)
   \/ On("close") /\ S!Close
   \/ On("svc") /\ phase # "config" /\ \E n \in NameSet, v \in 0..MaxVer : v # svc[n].ver /\ S!SvcActivate(n, v)
